@@ -184,36 +184,61 @@ Qed.
 (* ------------------------------------------------------------------ routing, as a function of the input alone *)
 Inductive route := RShell (command : json) | RMcp (tn : str) | ROther.
 
-Definition route_of (cursor : bool) (inp : json) : res route :=
-  if cursor then command <- py_get inp $"command" (JStr []) ;; Ok (RShell command)
+(* the Claude / Gemini reading: tool_name, tool_input *)
+Definition tool_route (inp : json) : res route :=
+  tool_name <- py_get inp $"tool_name" (JStr []) ;;
+  tool_input <- py_get inp $"tool_input" (JObj []) ;;
+  is_mcp <- py_startswith tool_name $"mcp__" ;;
+  if is_mcp then Ok (RMcp (str_of tool_name))
   else
-    tool_name <- py_get inp $"tool_name" (JStr []) ;;
-    tool_input <- py_get inp $"tool_input" (JObj []) ;;
-    is_mcp <- py_startswith tool_name $"mcp__" ;;
-    if is_mcp then Ok (RMcp (str_of tool_name))
-    else
-      in_shell <- py_in_frozenset tool_name SHELL_TOOL_NAMES ;;
-      if negb in_shell then Ok ROther
-      else command <- py_get tool_input $"command" (JStr []) ;; Ok (RShell command).
+    in_shell <- py_in_frozenset tool_name SHELL_TOOL_NAMES ;;
+    if negb in_shell then Ok ROther
+    else command <- py_get tool_input $"command" (JStr []) ;; Ok (RShell command).
+
+(* [cursor] = the mode is Cursor; it matters only when the input has neither tool_name nor command *)
+Definition route_of (cursor : bool) (inp : json) : res route :=
+  cw <- cursor_way cursor inp ;;
+  if cw then command <- py_get inp $"command" (JStr []) ;; Ok (RShell command)
+  else tool_route inp.
+
+Lemma cursor_way_exc cursor inp : exc_only (cursor_way cursor inp).
+Proof.
+  unfold cursor_way. apply exc_only_bind; [apply py_in_exc|]. intros [|]; cbn [negb]; [exact I|].
+  destruct cursor; [exact I | apply py_in_exc].
+Qed.
+
+Lemma tool_route_exc inp : exc_only (tool_route inp).
+Proof.
+  unfold tool_route.
+  apply exc_only_bind; [apply py_get_exc|]. intro tn.
+  apply exc_only_bind; [apply py_get_exc|]. intro ti.
+  apply exc_only_bind; [apply py_startswith_exc|]. intros [|]; [exact I|].
+  apply exc_only_bind; [apply py_in_frozenset_exc|]. intros [|]; cbn [negb]; [|exact I].
+  apply exc_only_bind; [apply py_get_exc|]. intro; exact I.
+Qed.
 
 Lemma route_exc cursor inp : exc_only (route_of cursor inp).
 Proof.
-  unfold route_of. destruct cursor.
-  - apply exc_only_bind; [apply py_get_exc|]. intro; exact I.
-  - apply exc_only_bind; [apply py_get_exc|]. intro tn.
-    apply exc_only_bind; [apply py_get_exc|]. intro ti.
-    apply exc_only_bind; [apply py_startswith_exc|]. intros [|]; [exact I|].
-    apply exc_only_bind; [apply py_in_frozenset_exc|]. intros [|]; cbn [negb]; [|exact I].
-    apply exc_only_bind; [apply py_get_exc|]. intro; exact I.
+  unfold route_of. apply exc_only_bind; [apply cursor_way_exc|]. intros [|]; [|apply tool_route_exc].
+  apply exc_only_bind; [apply py_get_exc|]. intro; exact I.
 Qed.
 
-(* an MCP route is exactly a str tool_name with the mcp__ prefix; a shell route (non-cursor) exactly a
+(* the cursor-way reading only ever yields a shell route *)
+Lemma route_tool cursor inp rt :
+  route_of cursor inp = Ok rt -> (forall c, rt <> RShell c) -> tool_route inp = Ok rt.
+Proof.
+  unfold route_of. destruct (cursor_way cursor inp) as [[|]|e]; cbn [bind]; [| auto | discriminate].
+  destruct (py_get inp $"command" (JStr [])) as [c|e]; cbn [bind]; [|discriminate].
+  intros H N. injection H as <-. exfalso. eapply N. reflexivity.
+Qed.
+
+(* an MCP route is exactly a str tool_name with the mcp__ prefix; a shell route through tool_name exactly a
    tool_name of SHELL_TOOL_NAMES without that prefix *)
-Lemma route_mcp_inv inp tn :
-  route_of false inp = Ok (RMcp tn) ->
+Lemma tool_route_mcp_inv inp tn :
+  tool_route inp = Ok (RMcp tn) ->
   py_get inp $"tool_name" (JStr []) = Ok (JStr tn) /\ prefixb $"mcp__" tn = true.
 Proof.
-  unfold route_of.
+  unfold tool_route.
   destruct (py_get inp $"tool_name" (JStr [])) as [t|e]; cbn [bind]; [|discriminate].
   destruct (py_get inp $"tool_input" (JObj [])) as [ti|e]; cbn [bind]; [|discriminate].
   destruct (py_startswith t $"mcp__") as [b|e] eqn:Sw; cbn [bind]; [|discriminate].
@@ -224,13 +249,18 @@ Proof.
     destruct (py_get ti $"command" (JStr [])); cbn [bind]; discriminate.
 Qed.
 
-Lemma route_shell_inv inp c :
-  route_of false inp = Ok (RShell c) ->
+Lemma route_mcp_inv cursor inp tn :
+  route_of cursor inp = Ok (RMcp tn) ->
+  py_get inp $"tool_name" (JStr []) = Ok (JStr tn) /\ prefixb $"mcp__" tn = true.
+Proof. intro H. apply tool_route_mcp_inv. apply (route_tool cursor); [exact H | discriminate]. Qed.
+
+Lemma tool_route_shell_inv inp c :
+  tool_route inp = Ok (RShell c) ->
   exists tn ti, py_get inp $"tool_name" (JStr []) = Ok (JStr tn) /\ In tn SHELL_TOOL_NAMES /\
                 prefixb $"mcp__" tn = false /\
                 py_get inp $"tool_input" (JObj []) = Ok ti /\ py_get ti $"command" (JStr []) = Ok c.
 Proof.
-  unfold route_of.
+  unfold tool_route.
   destruct (py_get inp $"tool_name" (JStr [])) as [t|e]; cbn [bind]; [|discriminate].
   destruct (py_get inp $"tool_input" (JObj [])) as [ti|e]; cbn [bind]; [|discriminate].
   destruct (py_startswith t $"mcp__") as [b|e] eqn:Sw; cbn [bind]; [|discriminate].
@@ -242,6 +272,37 @@ Proof.
   unfold py_in_tuple in M. apply existsb_exists in M as (x & Hx & E). cbn [py_eq_str] in E.
   apply str_eqb_eq in E. subst. exact Hx.
 Qed.
+
+(* a shell route is either the top-level command of an input without tool_name, or the above *)
+Lemma route_shell_inv cursor inp c :
+  route_of cursor inp = Ok (RShell c) ->
+  (py_in $"tool_name" inp = Ok false /\ py_get inp $"command" (JStr []) = Ok c) \/
+  (py_in $"tool_name" inp = Ok true /\ tool_route inp = Ok (RShell c)) \/
+  (cursor = false /\ py_in $"tool_name" inp = Ok false /\ py_in $"command" inp = Ok false /\ tool_route inp = Ok (RShell c)).
+Proof.
+  unfold route_of, cursor_way.
+  destruct (py_in $"tool_name" inp) as [[|]|e]; cbn [bind negb]; [ | |discriminate].
+  - intro H. right; left. auto.
+  - destruct cursor; cbn [bind].
+    + destruct (py_get inp $"command" (JStr [])) as [c'|e]; cbn [bind]; [|discriminate].
+      intro H; injection H as <-. left; auto.
+    + destruct (py_in $"command" inp) as [[|]|e]; cbn [bind]; [ | |discriminate].
+      * destruct (py_get inp $"command" (JStr [])) as [c'|e]; cbn [bind]; [|discriminate].
+        intro H; injection H as <-. left; auto.
+      * intro H. right; right. auto.
+Qed.
+
+(* with one of the two keys present, the mode plays no part in the routing *)
+Definition keyed (inp : json) : Prop := py_in $"tool_name" inp = Ok true \/ py_in $"command" inp = Ok true.
+
+Lemma cursor_way_keyed inp : keyed inp -> cursor_way true inp = cursor_way false inp.
+Proof.
+  unfold cursor_way. intros [H | H].
+  - rewrite H. reflexivity.
+  - destruct (py_in $"tool_name" inp) as [[|]|e]; cbn [bind negb]; try reflexivity. rewrite H. reflexivity.
+Qed.
+Lemma route_keyed inp : keyed inp -> route_of true inp = route_of false inp.
+Proof. intro K. unfold route_of. rewrite (cursor_way_keyed inp K). reflexivity. Qed.
 
 (* the bypass test as a function of the input alone *)
 Definition bypass_of (inp : json) : res (option str) :=
@@ -261,6 +322,15 @@ Definition event_of (inp : json) : res json := py_get inp $"hook_event_name" (JS
 (* a pre-execution event: anything but the str "PostToolUse" (missing, other names, wrong types) *)
 Definition pre_event (inp : json) : Prop := forall he, event_of inp = Ok he -> is_post he = false.
 Definition post_event (inp : json) : Prop := exists he, event_of inp = Ok he /\ is_post he = true.
+
+(* input_data.get("hook_event_name") != "PostToolUse" (default None) is the same test as the later one *)
+Lemma event_null inp :
+  (he <- py_get inp $"hook_event_name" JNull ;; Ok (py_eq_str he $"PostToolUse"))
+  = (he <- event_of inp ;; Ok (is_post he)).
+Proof.
+  unfold event_of, is_post. destruct inp; try reflexivity. cbn [py_get bind].
+  destruct (assoc $"hook_event_name" kv); reflexivity.
+Qed.
 
 (* ------------------------------------------------------------------ the three input shapes *)
 Lemma assoc_extra k extra : extra_ok extra = true -> mem_str k routing_keys = true -> assoc k extra = None.
@@ -309,11 +379,26 @@ Section Shapes.
   Lemma shapes_event : event_of ci = event_of ti.       Proof. reflexivity. Qed.
   Lemma shapes_bypass : bypass_of ci = bypass_of ti.    Proof. reflexivity. Qed.
 
-  Lemma ci_route : route_of true ci = Ok (RShell c).    Proof. reflexivity. Qed.
-  Lemma ti_route : In tn SHELL_TOOL_NAMES -> route_of false ti = Ok (RShell c).
+  Lemma ti_keyed : keyed ti.   Proof. left; reflexivity. Qed.
+  Lemma ci_keyed : keyed ci.   Proof. right; reflexivity. Qed.
+
+  Lemma ci_route cursor : extra_ok extra = true -> route_of cursor ci = Ok (RShell c).
   Proof.
-    intro H. unfold route_of. rewrite ti_tool_name, ti_tool_input. cbn [bind py_startswith].
+    intro E. unfold route_of, cursor_way, ci, cursor_input. cbn [py_in].
+    replace (assoc $"tool_name" (($"command", c) :: ($"cwd", cwd) :: extra)) with (assoc $"tool_name" extra) by reflexivity.
+    rewrite (assoc_extra $"tool_name" extra E) by (vm_compute; reflexivity). cbn [bind negb].
+    destruct cursor; reflexivity.
+  Qed.
+  Lemma ti_tool_route : In tn SHELL_TOOL_NAMES -> tool_route ti = Ok (RShell c).
+  Proof.
+    intro H. unfold tool_route. rewrite ti_tool_name, ti_tool_input. cbn [bind py_startswith].
     rewrite (shell_names_not_mcp tn H). cbn [py_in_frozenset bind]. rewrite (shell_names_in tn H). reflexivity.
+  Qed.
+  Lemma ti_route cursor : In tn SHELL_TOOL_NAMES -> route_of cursor ti = Ok (RShell c).
+  Proof.
+    intro H. unfold route_of, cursor_way.
+    replace (py_in $"tool_name" ti) with (Ok true : res bool) by reflexivity. cbn [bind negb].
+    apply ti_tool_route. exact H.
   Qed.
 
   (* auto-detection recognises each shape *)
@@ -437,33 +522,14 @@ Section Oracles.
   Proof.
     unfold after_config, core_after_config, lift.
     destruct (py_get inp $"hook_event_name" (JStr $"PreToolUse")) as [he|e]; cbn [bind]; [|reflexivity].
-    assert (NC : forall m', is_cursor m' = false ->
-      (tool_name <- py_get inp $"tool_name" (JStr []) ;;
-       tool_input <- py_get inp $"tool_input" (JObj []) ;;
-       is_mcp <- py_startswith tool_name $"mcp__" ;;
-       if is_mcp then mcp_part m' inp he (str_of tool_name) cfg
-       else in_shell <- py_in_frozenset tool_name SHELL_TOOL_NAMES ;;
-            if negb in_shell then Ok [J (JObj [])]
-            else command <- py_get tool_input $"command" (JStr []) ;; shell_tail m' inp he command cfg cwd)
-      = (o <- (tool_name <- py_get inp $"tool_name" (JStr []) ;;
-               tool_input <- py_get inp $"tool_input" (JObj []) ;;
-               is_mcp <- py_startswith tool_name $"mcp__" ;;
-               if is_mcp then core_mcp inp he (str_of tool_name) cfg
-               else in_shell <- py_in_frozenset tool_name SHELL_TOOL_NAMES ;;
-                    if negb in_shell then Ok OEmpty
-                    else command <- py_get tool_input $"command" (JStr []) ;; core_shell inp he command cfg cwd) ;;
-         Ok (render m' o))).
-    { intros m' _.
-      destruct (py_get inp $"tool_name" (JStr [])) as [tn|e]; cbn [bind]; [|reflexivity].
+    destruct (cursor_way (is_cursor m) inp) as [[|]|e]; cbn [bind]; [| |reflexivity].
+    - destruct (py_get inp $"command" (JStr [])) as [c|e]; cbn [bind]; [|reflexivity].
+      apply shell_tail_factor.
+    - destruct (py_get inp $"tool_name" (JStr [])) as [tn|e]; cbn [bind]; [|reflexivity].
       destruct (py_get inp $"tool_input" (JObj [])) as [ti|e]; cbn [bind]; [|reflexivity].
       destruct (py_startswith tn $"mcp__") as [[|]|e]; cbn [bind]; [apply mcp_part_factor| |reflexivity].
       destruct (py_in_frozenset tn SHELL_TOOL_NAMES) as [[|]|e]; cbn [bind negb]; [|reflexivity|reflexivity].
       destruct (py_get ti $"command" (JStr [])) as [c|e]; cbn [bind]; [|reflexivity].
-      apply shell_tail_factor. }
-    destruct m; cbn [is_cursor].
-    - apply NC; reflexivity.
-    - apply NC; reflexivity.
-    - destruct (py_get inp $"command" (JStr [])) as [c|e]; cbn [bind]; [|reflexivity].
       apply shell_tail_factor.
   Qed.
 
@@ -478,7 +544,9 @@ Section Oracles.
     destruct (find_cwd inp) as [cwd|e]; cbn [bind]; [|reflexivity].
     destruct (load_stage cwd) as [cfg|e].
     - apply after_config_factor.
-    - destruct e; reflexivity.
+    - destruct e; try reflexivity.
+      destruct (py_get inp $"hook_event_name" JNull) as [he|e]; cbn [bind]; [|reflexivity].
+      destruct (py_eq_str he $"PostToolUse"); cbn [bind render]; [reflexivity|]. rewrite ask_envelope. reflexivity.
   Qed.
 
   (* claude and gemini: literally the same computation *)
@@ -496,9 +564,9 @@ Section Oracles.
        | ROther => Ok OEmpty
        end).
   Proof.
-    unfold core_after_config, route_of, event_of.
+    unfold core_after_config, route_of, tool_route, event_of.
     destruct (py_get inp $"hook_event_name" (JStr $"PreToolUse")) as [he|e]; cbn [bind]; [|reflexivity].
-    destruct cursor.
+    destruct (cursor_way cursor inp) as [[|]|e]; cbn [bind]; [| |reflexivity].
     - destruct (py_get inp $"command" (JStr [])); reflexivity.
     - destruct (py_get inp $"tool_name" (JStr [])) as [tn|e]; cbn [bind]; [|reflexivity].
       destruct (py_get inp $"tool_input" (JObj [])) as [ti|e]; cbn [bind]; [|reflexivity].
@@ -599,7 +667,8 @@ Section Oracles.
       pose proof (load_stage_exc cwd) as L. destruct (load_stage cwd) as [cfg|e].
       - rewrite core_after_config_route. apply exc_only_bind; [apply py_get_exc|]. intro he.
         apply exc_only_bind; [apply route_exc|]. intros [c|tn|]; [apply core_shell_exc|apply core_mcp_exc|exact I].
-      - destruct e; try exact L. exact I.
+      - destruct e; try exact L. apply exc_only_bind; [apply py_get_exc|]. intro he.
+        destruct (py_eq_str he $"PostToolUse"); exact I.
     Qed.
 
     Lemma main_try_exc explicit inp : exc_only (main_try explicit inp).
@@ -677,9 +746,23 @@ Section Oracles.
   Definition config_error_at (inp : json) (msg : str) : Prop :=
     exists cwd, find_cwd inp = Ok cwd /\ load_stage cwd = Raise (ConfigError msg).
 
+  (* the answer to a ConfigError: ask, or nothing on PostToolUse *)
+  Definition config_error_outcome (inp : json) (msg : str) : res outcome :=
+    he <- event_of inp ;; Ok (if is_post he then OSilent else ODecision Ask ($"config error: " ++ msg)).
+
+  Lemma config_error_branch inp msg :
+    (he <- py_get inp $"hook_event_name" JNull ;;
+     if py_eq_str he $"PostToolUse" then Ok OSilent else Ok (ODecision Ask ($"config error: " ++ msg)))
+    = config_error_outcome inp msg.
+  Proof.
+    unfold config_error_outcome, event_of, is_post. destruct inp; try reflexivity. cbn [py_get bind].
+    destruct (assoc $"hook_event_name" kv) as [v|]; [|reflexivity].
+    destruct (py_eq_str v $"PostToolUse"); reflexivity.
+  Qed.
+
   Lemma core_cases cursor inp o :
     core cursor inp = Ok o ->
-    (exists msg, config_error_at inp msg /\ o = ODecision Ask ($"config error: " ++ msg)) \/
+    (exists msg, config_error_at inp msg /\ config_error_outcome inp msg = Ok o) \/
     (exists cwd cfg he rt,
         find_cwd inp = Ok cwd /\ load_stage cwd = Ok cfg /\ event_of inp = Ok he /\ route_of cursor inp = Ok rt /\
         match rt with
@@ -695,16 +778,28 @@ Section Oracles.
       destruct (route_of cursor inp) as [rt|e] eqn:Er; cbn [bind]; [|discriminate].
       intro H. right. exists cwd, cfg, he, rt. repeat split; auto.
       destruct rt; auto. injection H as <-. reflexivity.
-    - destruct e; try discriminate. intro H; injection H as <-. left. exists msg. split; [|reflexivity].
+    - destruct e; try discriminate. rewrite config_error_branch. intro H. left. exists msg. split; [|exact H].
       exists cwd. auto.
+  Qed.
+
+  Lemma config_error_pre inp msg o :
+    pre_event inp -> config_error_outcome inp msg = Ok o -> o = ODecision Ask ($"config error: " ++ msg).
+  Proof.
+    unfold config_error_outcome. intros P. destruct (event_of inp) as [he|x] eqn:E; cbn [bind]; [|discriminate].
+    rewrite (P he E). intro H; injection H as <-. reflexivity.
+  Qed.
+  Lemma config_error_post inp msg o :
+    post_event inp -> config_error_outcome inp msg = Ok o -> o = OSilent.
+  Proof.
+    unfold config_error_outcome. intros (he & -> & P). cbn [bind]. rewrite P. intro H; injection H as <-. reflexivity.
   Qed.
 
   (* C06_one_object, on the core: a pre-execution event yields a decision or {} - never text, never nothing *)
   Lemma core_pre_outcome cursor inp o :
     pre_event inp -> core cursor inp = Ok o -> is_decision o = true \/ o = OEmpty.
   Proof.
-    intros P H. apply core_cases in H as [(msg & _ & ->) | (cwd & cfg & he & rt & _ & _ & Ee & _ & H)].
-    - left; reflexivity.
+    intros P H. apply core_cases in H as [(msg & _ & H) | (cwd & cfg & he & rt & _ & _ & Ee & _ & H)].
+    - left. rewrite (config_error_pre inp msg o P H). reflexivity.
     - specialize (P he Ee). destruct rt.
       + left. eapply core_shell_pre; eauto.
       + eapply core_mcp_pre; eauto.
@@ -764,10 +859,27 @@ Section Oracles.
   Lemma main_try_config_error explicit inp m msg :
     (match explicit with Some m => Ok m | None => detect_mode_from_input inp end) = Ok m ->
     config_error_at inp msg ->
+    main_try explicit inp = lift m (config_error_outcome inp msg).
+  Proof.
+    intros Hm (cwd & Hc & Hl). rewrite main_try_factor, Hm; cbn [bind]. unfold Hook.core.
+    rewrite Hc; cbn [bind]. rewrite Hl, config_error_branch. reflexivity.
+  Qed.
+
+  (* ... i.e. on a pre-execution event an ask envelope, on PostToolUse nothing *)
+  Lemma main_try_config_error_pre explicit inp m msg :
+    (match explicit with Some m => Ok m | None => detect_mode_from_input inp end) = Ok m ->
+    config_error_at inp msg -> (exists he, event_of inp = Ok he /\ is_post he = false) ->
     main_try explicit inp = Ok [J (envelope m Ask ($"config error: " ++ msg))].
   Proof.
-    intros Hm (cwd & Hc & Hl). unfold Hook.main_try. rewrite Hm; cbn [bind]. rewrite Hc; cbn [bind]. rewrite Hl.
-    rewrite ask_envelope. reflexivity.
+    intros Hm Hc (he & He & P). rewrite (main_try_config_error explicit inp m msg Hm Hc).
+    unfold lift, config_error_outcome. rewrite He; cbn [bind]. rewrite P. reflexivity.
+  Qed.
+  Lemma main_try_config_error_post explicit inp m msg :
+    (match explicit with Some m => Ok m | None => detect_mode_from_input inp end) = Ok m ->
+    config_error_at inp msg -> post_event inp -> main_try explicit inp = Ok [].
+  Proof.
+    intros Hm Hc (he & He & P). rewrite (main_try_config_error explicit inp m msg Hm Hc).
+    unfold lift, config_error_outcome. rewrite He; cbn [bind]. rewrite P. reflexivity.
   Qed.
 
   (* every typed-access failure and every oracle exception propagates: main_try is a chain of binds.
@@ -798,16 +910,17 @@ Section Oracles.
     rewrite (assoc_extra $"tool_input" extra E) by (vm_compute; reflexivity). reflexivity.
   Qed.
 
-  Lemma core_same tn c cwd extra :
+  Lemma core_same c1 c2 tn c cwd extra :
     extra_ok extra = true -> In tn SHELL_TOOL_NAMES ->
-    core true (cursor_input c cwd extra) = core false (tool_input_shape tn c cwd extra).
+    core c1 (cursor_input c cwd extra) = core c2 (tool_input_shape tn c cwd extra).
   Proof.
     intros E H. unfold Hook.core. rewrite (find_cwd_shapes tn c cwd extra E).
     destruct (find_cwd (tool_input_shape tn c cwd extra)) as [w|e]; cbn [bind]; [|reflexivity].
-    destruct (load_stage w) as [cfg|e]; [|reflexivity].
-    rewrite !core_after_config_route. rewrite (shapes_event tn c cwd extra), ci_route, (ti_route tn c cwd extra H).
-    destruct (event_of (tool_input_shape tn c cwd extra)) as [he|e]; cbn [bind]; [|reflexivity].
-    apply core_shell_bypass_only. apply shapes_bypass.
+    destruct (load_stage w) as [cfg|e].
+    - rewrite !core_after_config_route. rewrite (shapes_event tn c cwd extra), (ci_route c cwd extra c1 E), (ti_route tn c cwd extra c2 H).
+      destruct (event_of (tool_input_shape tn c cwd extra)) as [he|e]; cbn [bind]; [|reflexivity].
+      apply core_shell_bypass_only. apply shapes_bypass.
+    - destruct e; reflexivity.
   Qed.
 
   (* what the host reads from the printed items *)
@@ -836,7 +949,7 @@ Section Oracles.
       = read_res Gemini (main_try (Some Gemini) (tool_input_shape tn_g c cwd extra)).
   Proof.
     intros E Hc Hg. rewrite !read_main_try. cbn [is_cursor].
-    rewrite (core_same tn_c c cwd extra E Hc) at 1. rewrite (core_same tn_g c cwd extra E Hg). auto.
+    rewrite (core_same true false tn_c c cwd extra E Hc) at 1. rewrite (core_same true false tn_g c cwd extra E Hg). auto.
   Qed.
 
   (* the same with auto-detection instead of flags *)
@@ -849,6 +962,27 @@ Section Oracles.
     intros E Hg. rewrite !main_try_factor.
     rewrite (ci_detect c cwd extra E), (ti_detect_claude $"Bash" c cwd extra eq_refl), (ti_detect_gemini tn_g c cwd extra Hg).
     auto.
+  Qed.
+
+  (* ---- C12: the forced mode does not influence the verdict *)
+  Lemma core_mode_independent inp :
+    keyed inp \/ (forall kv, inp <> JObj kv) -> core true inp = core false inp.
+  Proof.
+    intros [K | N]; unfold Hook.core.
+    - destruct (find_cwd inp) as [cwd|e]; cbn [bind]; [|reflexivity].
+      destruct (load_stage cwd) as [cfg|e]; [|reflexivity].
+      rewrite !core_after_config_route, (route_keyed inp K). reflexivity.
+    - unfold Hook.find_cwd. rewrite (py_get_nonobj inp _ _ N). reflexivity.
+  Qed.
+
+  Lemma main_mode_independent m1 m2 inp :
+    keyed inp \/ (forall kv, inp <> JObj kv) ->
+    read_res m1 (main_try (Some m1) inp) = read_res m2 (main_try (Some m2) inp).
+  Proof.
+    intro K. rewrite !read_main_try.
+    assert (E : forall b1 b2, core b1 inp = core b2 inp).
+    { intros [|] [|]; try reflexivity; [|symmetry]; apply core_mode_independent; exact K. }
+    rewrite (E (is_cursor m1) (is_cursor m2)). reflexivity.
   Qed.
 
   (* ---- C06_allow_only: exactly when does the core answer allow *)
@@ -875,8 +1009,9 @@ Section Oracles.
 
   Lemma core_allow_only cursor inp r : core cursor inp = Ok (ODecision Allow r) -> legit_allow cursor inp r.
   Proof.
-    intro H. apply core_cases in H as [(msg & _ & E) | (cwd & cfg & he & rt & Hc & Hl & He & Hr & H)];
-      [discriminate|].
+    intro H. apply core_cases in H as [(msg & _ & E) | (cwd & cfg & he & rt & Hc & Hl & He & Hr & H)].
+    { unfold config_error_outcome in E. destruct (event_of inp) as [h|x]; cbn [bind] in E; [|discriminate].
+      destruct (is_post h); discriminate. }
     destruct (is_post he) eqn:P.
     { destruct rt; [apply core_shell_post in H | apply core_mcp_post in H | discriminate]; auto;
         destruct H as [H | (c0 & t0 & H)]; discriminate. }
@@ -951,15 +1086,16 @@ Section Oracles.
     In tn SHELL_TOOL_NAMES -> cwds <> [] ->
     is_post (field $"hook_event_name" extra (JStr $"PreToolUse")) = false ->
     py_in_tuple (field $"permission_mode" extra (JStr $"default")) BYPASS_MODES = false ->
-    is_cursor m = false ->
     main_try (Some m) (tool_input_shape tn (JStr s) (JStr cwds) extra) = wf_shell_run m s cwds.
   Proof.
-    intros H Hn P B Hm. rewrite main_try_factor. cbn [bind]. rewrite Hm. unfold lift, Hook.core, wf_shell_run.
+    intros H Hn P B. rewrite main_try_factor. cbn [bind]. unfold lift, Hook.core, wf_shell_run.
     destruct cwds as [|c0 t0]; [contradiction|].
     unfold Hook.find_cwd. rewrite ti_cwd. cbn [bind truthy nonempty negb path_resolve].
     destruct (o_resolve (c0 :: t0)) as [cwd|x]; cbn [bind]; [|reflexivity].
-    destruct (load_stage cwd) as [cfg|x]; [|destruct x; reflexivity].
-    rewrite core_after_config_route. unfold event_of. rewrite ti_event, (ti_route tn _ _ extra H). cbn [bind].
+    destruct (load_stage cwd) as [cfg|x].
+    2: { destruct x; try reflexivity. rewrite config_error_branch. unfold config_error_outcome, event_of.
+         rewrite ti_event. cbn [bind]. rewrite P. reflexivity. }
+    rewrite core_after_config_route. unfold event_of. rewrite ti_event, (ti_route tn _ _ extra (is_cursor m) H). cbn [bind].
     unfold Hook.core_shell. unfold is_post in P. rewrite P, perm_bypass_spec. unfold bypass_of. rewrite ti_perm. cbn [bind].
     rewrite B. cbn [bind analyze].
     destruct (o_analyze s (c_shell cfg) cwd) as [[a r]|x]; cbn [bind fst snd]; [|reflexivity].
@@ -980,13 +1116,12 @@ Section Oracles.
   (* ---- C19: PostToolUse *)
   Lemma core_post_outcome cursor inp o :
     post_event inp -> core cursor inp = Ok o ->
-    (exists msg, config_error_at inp msg /\ o = ODecision Ask ($"config error: " ++ msg)) \/
-    (route_of cursor inp = Ok ROther /\ o = OEmpty) \/
-    feedback_shape o.
+    (route_of cursor inp = Ok ROther /\ o = OEmpty) \/ feedback_shape o.
   Proof.
-    intros (he' & Ee' & P) H.
-    apply core_cases in H as [(msg & Hm & ->) | (cwd & cfg & he & rt & _ & _ & Ee & Hr & H)]; [left; eauto|].
-    right. rewrite Ee' in Ee. injection Ee as <-. destruct rt.
+    intros PE H. pose proof PE as (he' & Ee' & P).
+    apply core_cases in H as [(msg & Hm & H) | (cwd & cfg & he & rt & _ & _ & Ee & Hr & H)].
+    { right. left. exact (config_error_post inp msg o PE H). }
+    rewrite Ee' in Ee. injection Ee as <-. destruct rt.
     - right. eapply core_shell_post; eauto.
     - right. eapply core_mcp_post; eauto.
     - left. auto.
@@ -1082,10 +1217,9 @@ Section Oracles.
 
   Lemma main_post_output setup e inp :
     oracles_exc_only -> (setup = Ok tt \/ setup = Raise OSError) -> post_event inp ->
-    (forall msg, ~ config_error_at inp msg) ->
     post_stdout (stdout (main setup e (Ok inp))) /\ exit_code (main setup e (Ok inp)) = 0%nat.
   Proof.
-    intros X Hs P NC. split; [|apply (main_total X setup e (Ok inp) Hs I)].
+    intros X Hs P. split; [|apply (main_total X setup e (Ok inp) Hs I)].
     rewrite (main_is_handlers setup e (Ok inp) Hs). cbn [bind].
     pose proof (main_try_exc X (detect_mode_from_flags e) inp) as T.
     rewrite main_try_factor in *.
@@ -1095,8 +1229,18 @@ Section Oracles.
     unfold lift in *. destruct (core (is_cursor m) inp) as [o|x] eqn:Ec; cbn [bind handlers] in *.
     2: { cbn in T. rewrite T. right; right; reflexivity. }
     cbn [done stdout].
-    apply core_post_outcome in Ec as [(msg & Hm & _) | [(_ & ->) | [-> | (c & t & ->)]]];
-      [exfalso; eapply NC; eauto | right; right; reflexivity | left; reflexivity | right; left; cbn [render]; eauto | exact P].
+    apply core_post_outcome in Ec as [(_ & ->) | [-> | (c & t & ->)]];
+      [right; right; reflexivity | left; reflexivity | right; left; cbn [render]; eauto | exact P].
+  Qed.
+
+  (* {} on PostToolUse has exactly two origins: something raised, or the tool is neither shell nor MCP *)
+  Lemma main_post_empty_origin explicit inp m :
+    (match explicit with Some m => Ok m | None => detect_mode_from_input inp end) = Ok m ->
+    post_event inp -> main_try explicit inp = Ok [J (JObj [])] -> route_of (is_cursor m) inp = Ok ROther.
+  Proof.
+    intros Hm P. rewrite main_try_factor, Hm. cbn [bind]. unfold lift.
+    destruct (core (is_cursor m) inp) as [o|x] eqn:Ec; cbn [bind]; [|discriminate].
+    apply core_post_outcome in Ec as [(Hr & _) | [-> | (c & t & ->)]]; [auto | discriminate | discriminate | exact P].
   Qed.
 
   (* what exactly is printed: the message of the last matching rule *)
@@ -1459,11 +1603,11 @@ Section Faulty.
     apply fle_bind; [apply fle_refl|]. intros [c|tn|]; [apply core_shell_fle | apply core_mcp_fle | apply fle_refl].
   Qed.
 
-  (* the faulty core: the same outcome, or an exception, or the config-error ask *)
-  Definition cle (r' r : res outcome) : Prop :=
-    fle r' r \/ exists msg, r' = Ok (ODecision Ask ($"config error: " ++ msg)).
+  (* the faulty core: the same outcome, or an exception, or the answer to a ConfigError *)
+  Definition cle (inp : json) (r' r : res outcome) : Prop :=
+    fle r' r \/ exists msg, r' = config_error_outcome inp msg.
 
-  Lemma core_cle cursor inp : cle (core_f cursor inp) (core_o cursor inp).
+  Lemma core_cle cursor inp : cle inp (core_f cursor inp) (core_o cursor inp).
   Proof.
     unfold core. destruct (find_cwd_fle inp) as [-> | (e & -> & He)].
     2: { left. right. exists e. auto. }
@@ -1472,16 +1616,18 @@ Section Faulty.
     - destruct (load_stage o_load_config o_configure_logging cwd) as [cfg|e]; [|left; apply fle_refl].
       left. apply core_after_config_fle.
     - destruct e; try (left; right; eexists; split; [reflexivity | exact He]).
-      right. exists msg. reflexivity.
+      right. exists msg. apply config_error_branch.
   Qed.
 
-  (* on the process: injected failures leave the answer as it was, or turn it into {} or into the
-     config-error ask - never into anything else (in particular never into allow or deny) *)
+  (* on the process: injected failures leave the answer as it was, or turn it into {}, into the
+     config-error ask, or - on PostToolUse - into nothing; never into anything else (in particular
+     never into allow or deny) *)
   Lemma main_fault_monotone setup e inp :
     (setup = Ok tt \/ setup = Raise OSError) ->
     stdout (main_f setup e (Ok inp)) = stdout (main_o setup e (Ok inp)) \/
     stdout (main_f setup e (Ok inp)) = [J (JObj [])] \/
-    exists m msg, stdout (main_f setup e (Ok inp)) = [J (envelope m Ask ($"config error: " ++ msg))].
+    (exists m msg, stdout (main_f setup e (Ok inp)) = [J (envelope m Ask ($"config error: " ++ msg))]) \/
+    (post_event inp /\ stdout (main_f setup e (Ok inp)) = []).
   Proof.
     intro Hs. rewrite !main_is_handlers by exact Hs. cbn [bind]. rewrite !main_try_factor.
     destruct (match detect_mode_from_flags e with Some m => Ok m | None => detect_mode_from_input inp end) as [m|x];
@@ -1489,6 +1635,10 @@ Section Faulty.
     unfold lift. destruct (core_cle (is_cursor m) inp) as [[-> | (x & -> & Hx)] | (msg & ->)].
     - left; reflexivity.
     - right; left. cbn [bind handlers]. rewrite Hx. reflexivity.
-    - right; right. exists m, msg. reflexivity.
+    - unfold config_error_outcome. destruct (event_of inp) as [he|x] eqn:Ee; cbn [bind handlers].
+      + destruct (is_post he) eqn:P; cbn [render done stdout].
+        * right; right; right. split; [exists he; auto | reflexivity].
+        * right; right; left. exists m, msg. reflexivity.
+      + right; left. destruct inp; cbn in Ee; try (injection Ee as <-; reflexivity); discriminate.
   Qed.
 End Faulty.
